@@ -20,6 +20,7 @@ import (
 
 func main() {
 	debug.SetGCPercent(800)
+	debug.SetMemoryLimit(20 << 30) // collect harder when the heap approaches 20 GiB
 	if len(os.Args) < 2 {
 		fmt.Fprintln(os.Stderr, "usage: gosym run|list [flags]")
 		os.Exit(2)
